@@ -277,14 +277,29 @@ def Doc.keyOf (src : Doc) (k : Nat) : List Byte × Bool :=
   | .linked s => (s, true)
   | .owned n => (src.strBytes n, false)
   | _ => ([], false)
-/-- JsonObject::set: for each member `dst[key].set(value)`; `copy d m v` copies source slot `v` into slot `m` of `d` -/
+/-- JsonObject::set(JsonObjectConst): `(*this)[key].set(value)` for each member, stopping at the first one that reports failure.
+    The member proxy gets or adds the member (failure: stop); the set reports `!overflowed()` - the flag is sticky, so in a document
+    that is already flagged the first member is copied and the loop stops. -/
 def copyMembers (l : Loc) (src : Doc) (copy : Doc → Nat → Nat → Doc) (d : Doc) : List Nat → Doc
   | k :: v :: rest =>
     let (key, linked) := src.keyOf k
     match d.getOrAddMember l key linked with
-    | (some m, d) => copyMembers l src copy (copy d m v) rest
-    | (none, d) => copyMembers l src copy d rest
+    | (some m, d) =>
+      let d := copy d m v
+      if d.overflowed then d else copyMembers l src copy d rest
+    | (none, d) => d
   | _ => d
+/-- JsonArray::set(JsonArrayConst): `add(element)` for each element, stopping at the first add that reports failure.
+    add = allocVariant (failure: stop), set the new slot to a copy of the element; the set reports `!overflowed()`; on failure
+    the slot is released again (with whatever was copied into it) and the loop stops, otherwise the slot is appended. -/
+def copyElems (l : Loc) (copy : Doc → Nat → Nat → Doc) : Doc → List Nat → Doc
+  | d, [] => d
+  | d, e :: rest =>
+    match d.allocVariant with
+    | (none, d) => d
+    | (some id, d) =>
+      let d := copy d id e
+      if d.overflowed then d.freeVariant id else copyElems l copy (d.appendOne l id) rest
 def copyIntoF : Nat → Doc → Loc → Doc → VData → Doc
   | 0, d, l, _, _ => d.clearV l
   | f+1, d, l, src, sv =>
@@ -303,13 +318,7 @@ def copyIntoF : Nat → Doc → Loc → Doc → VData → Doc
   | .raw n => (d.setArg l (.raw (src.strBytes n))).2
   | .arr h _ =>
     let d := d.set l (.arr d.null d.null)
-    -- JsonArray::set: for each element add(element): allocVariant, set, append (slot released if set fails)
-    (src.chain h).foldl (fun d e =>
-      match d.allocVariant with
-      | (none, d) => d
-      | (some id, d) =>
-        let d := copyIntoF f d (.slot id) src (src.get (.slot e))
-        d.appendOne l id) d
+    copyElems l (fun d id e => copyIntoF f d (.slot id) src (src.get (.slot e))) d (src.chain h)
   | .obj h _ =>
     let d := d.set l (.obj d.null d.null)
     copyMembers l src (fun d m v => copyIntoF f d (.slot m) src (src.get (.slot v))) d (src.chain h)
